@@ -96,7 +96,86 @@ class CandRun(object):
                          max_total=rng.choice([6, 12, 16]), mix=SETUP_MIX)
         g.roomy = True
         self.gen = g
-        for i in range(rng.randint(12, 32)):
+        # half of the states start from a deliberate topology: compute
+        # nodes with NUMA-like children, a sharing provider reachable
+        # through a common aggregate, a second sharing provider in another
+        # aggregate - the shapes the candidate code has separate paths for
+        template = []
+        if rng.random() < 0.55:
+            P = g.P
+            agg1, agg2 = g.A[0], g.A[1]
+
+            def inv(**kw):
+                return {rc: g.gen_inventory() for rc in kw.get('rcs')}
+            n_cn = rng.choice([1, 2])
+            idx = 0
+            cns = []
+            for c in range(n_cn):
+                cn = P[idx]
+                idx += 1
+                cns.append(cn)
+                template.append({'m': 'POST', 'p': '/resource_providers',
+                                 'v': '1.39', 'kind': 'rp_create',
+                                 'b': {'name': 'cn-%d' % c, 'uuid': cn}})
+                template.append({
+                    'm': 'PUT', 'kind': 'inv_put_all', 'v': '1.39',
+                    'p': '/resource_providers/%s/inventories' % cn,
+                    'b': {'resource_provider_generation': 0,
+                          'inventories': inv(rcs=rng.choice(
+                              [['VCPU', 'MEMORY_MB'], ['MEMORY_MB'],
+                               ['VCPU', 'MEMORY_MB', 'DISK_GB']]))}})
+                template.append({
+                    'm': 'PUT', 'kind': 'agg_put', 'v': '1.39',
+                    'p': '/resource_providers/%s/aggregates' % cn,
+                    'b': {'resource_provider_generation': 1,
+                          'aggregates': [agg1] if c == 0 or
+                          rng.random() < 0.5 else [agg2]}})
+                for k in range(rng.choice([0, 1, 2])):
+                    if idx >= len(P) - 1:
+                        break
+                    ch = P[idx]
+                    idx += 1
+                    template.append({
+                        'm': 'POST', 'p': '/resource_providers',
+                        'v': '1.39', 'kind': 'rp_create',
+                        'b': {'name': 'numa-%d-%d' % (c, k), 'uuid': ch,
+                              'parent_provider_uuid': cn}})
+                    template.append({
+                        'm': 'PUT', 'kind': 'inv_put_all', 'v': '1.39',
+                        'p': '/resource_providers/%s/inventories' % ch,
+                        'b': {'resource_provider_generation': 0,
+                              'inventories': inv(rcs=rng.choice(
+                                  [['VCPU'], ['VCPU', 'MEMORY_MB'],
+                                   ['DISK_GB']]))}})
+            if idx < len(P):
+                ss = P[idx]
+                idx += 1
+                template.append({'m': 'POST', 'p': '/resource_providers',
+                                 'v': '1.39', 'kind': 'rp_create',
+                                 'b': {'name': 'shared-disk', 'uuid': ss}})
+                template.append({
+                    'm': 'PUT', 'kind': 'inv_put_all', 'v': '1.39',
+                    'p': '/resource_providers/%s/inventories' % ss,
+                    'b': {'resource_provider_generation': 0,
+                          'inventories': inv(rcs=['DISK_GB'])}})
+                template.append({
+                    'm': 'PUT', 'kind': 'rpt_put', 'v': '1.39',
+                    'p': '/resource_providers/%s/traits' % ss,
+                    'b': {'resource_provider_generation': 1,
+                          'traits': ['MISC_SHARES_VIA_AGGREGATE']}})
+                template.append({
+                    'm': 'PUT', 'kind': 'agg_put', 'v': '1.39',
+                    'p': '/resource_providers/%s/aggregates' % ss,
+                    'b': {'resource_provider_generation': 2,
+                          'aggregates': [agg1]}})
+        for op in template:
+            exp = self.model.apply(op)
+            r = self.req(op['m'], op['p'], op.get('b'), op.get('v'))
+            self.ops.append(workload.op_brief(op))
+            if r.status != exp.status:
+                return False
+            self.model.adopt(dump.natural(w))
+        for i in range(rng.randint(6 if template else 12, 32)):
             op = g.next_op(self.model)
             pre = self.model.clone()
             exp = self.model.apply(op)
